@@ -58,7 +58,7 @@ def generate(rng, tier):
             elif k == "open":
                 op["fault"] = {"kind": "open", "at": rng.randint(1, 3), "errno": rng.choice(["eacces", "emfile"])}
             elif k == "interrupt":
-                op["fault"] = {"kind": "interrupt", "at": rng.randint(1, 400)}
+                op["fault"] = W.gen_interrupt(rng, 400)
             else:
                 op["fault"] = {"kind": "source", "at": rng.randint(1, 6)}
         ops.append(op)
